@@ -1,0 +1,72 @@
+//! Read-only verification hooks (feature `verif-hooks`).
+use super::{EntryNode, RawLRU};
+use alloc::vec::Vec;
+
+/// Structural snapshot of one `RawLRU`.
+pub struct VerifAudit<'a, K, V> {
+    /// forward walk head->tail: (node address, key, value)
+    pub forward: Vec<(usize, &'a K, &'a V)>,
+    /// backward walk tail->head: node addresses
+    pub backward: Vec<usize>,
+    /// index entries: (node address, address the KeyRef points to, address of the node's key field)
+    pub index: Vec<(usize, usize, usize)>,
+    /// `map.len()`
+    pub map_len: usize,
+    /// head sentinel address
+    pub head: usize,
+    /// tail sentinel address
+    pub tail: usize,
+    /// capacity
+    pub cap: usize,
+    /// a walk was cut short (null link or `max_nodes` reached)
+    pub truncated: bool,
+}
+
+impl<K, V, E, S> RawLRU<K, V, E, S> {
+    /// Walk the list both ways and dump the index. Never calls user code.
+    pub fn verif_audit(&self, max_nodes: usize) -> VerifAudit<'_, K, V> {
+        let mut forward = Vec::new();
+        let mut backward = Vec::new();
+        let mut truncated = false;
+        unsafe {
+            let mut p: *mut EntryNode<K, V> = (*self.head).next;
+            while p != self.tail {
+                if forward.len() >= max_nodes || p.is_null() {
+                    truncated = true;
+                    break;
+                }
+                forward.push((p as usize, &*(*p).key.as_ptr(), &*(*p).val.as_ptr()));
+                p = (*p).next;
+            }
+            let mut p: *mut EntryNode<K, V> = (*self.tail).prev;
+            while p != self.head {
+                if backward.len() >= max_nodes || p.is_null() {
+                    truncated = true;
+                    break;
+                }
+                backward.push(p as usize);
+                p = (*p).prev;
+            }
+        }
+        let index = self
+            .map
+            .iter()
+            .map(|(kr, n)| {
+                let node = n.as_ptr();
+                (node as usize, kr.k as usize, unsafe {
+                    (*node).key.as_ptr() as usize
+                })
+            })
+            .collect();
+        VerifAudit {
+            forward,
+            backward,
+            index,
+            map_len: self.map.len(),
+            head: self.head as usize,
+            tail: self.tail as usize,
+            cap: self.cap,
+            truncated,
+        }
+    }
+}
